@@ -20,7 +20,7 @@ func init() {
 
 func runC17(c *core.Ctx) {
 	runFixtures(c, "nilguard", "pool", "lockleak")
-	c.Explain("Structural clauses of C17 decided from source: (R17.1) for every pointer field of a struct that some method assigns nil (the closed mark of keyvalue.file), every dereference of that field in every other method — including promoted fields/methods of the embedded pointer — is dominated by a non-nil test of the field, directly or at every call site of an unexported helper; (R17.2) every type implementing io/fs.File has a closed state: Close writes a receiver field or delegates to an inner handle's Close, and every other exported method tests that field before its first effect or delegates to the inner handle; (R17.3) the failing side of each closed-guard returns an ErrClosed-class error; (R17.4) every store write-back reachable from a File method happens in a transaction that first looks the path up and skips the write when it no longer exists; (R17.5) path-sensitive form of R17.2: in every exported method of every File type, each return with a nil error lies on a path that loaded the closed mark / inner handle or called another method of the same receiver — a fast path that answers before the check (an empty buffer, a cached value) succeeds on a closed handle; (R17.6) no value of a type implementing io/fs.File is put into a sync.Pool (a recycled struct makes a closed handle work again and lets it move another handle's position); (R17.7) no method of the OS-backed File type calls a path-taking function of package os (os.Chmod, os.Stat…): after Close the handle's methods fail with ErrClosed, while a by-name fallback would succeed and act on whatever file has that name now. (R17.8) every error a method of the OS-backed handle returns is the translated error of the inner *os.File call (a closed handle answers ErrClosed whatever the arguments). (R17.9) Close marks the handle only after testing its closed mark. (R17.10) no handle method returns with a mutex held; (R17.11) File helpers hand their file's error on. (R17.12) methods of the os-backed handle return the error of their *os.File call. NOT claimed: independence of offsets between handles over histories (the offset is a per-handle struct field, inventoried only), equality of the error with os.File's for each call.")
+	c.Explain("Structural clauses of C17 decided from source: (R17.1) for every pointer field of a struct that some method assigns nil (the closed mark of keyvalue.file), every dereference of that field in every other method — including promoted fields/methods of the embedded pointer — is dominated by a non-nil test of the field, directly or at every call site of an unexported helper; (R17.2) every type implementing io/fs.File has a closed state: Close writes a receiver field or delegates to an inner handle's Close, and every other exported method tests that field before its first effect or delegates to the inner handle; (R17.3) the failing side of each closed-guard returns an ErrClosed-class error; (R17.4) every store write-back reachable from a File method happens in a transaction that first looks the path up and skips the write when it no longer exists; (R17.5) path-sensitive form of R17.2: in every exported method of every File type, each return with a nil error lies on a path that loaded the closed mark / inner handle or called another method of the same receiver — a fast path that answers before the check (an empty buffer, a cached value) succeeds on a closed handle; (R17.6) no value of a type implementing io/fs.File is put into a sync.Pool (a recycled struct makes a closed handle work again and lets it move another handle's position); (R17.7) no method of the OS-backed File type calls a path-taking function of package os (os.Chmod, os.Stat…): after Close the handle's methods fail with ErrClosed, while a by-name fallback would succeed and act on whatever file has that name now. (R17.8) every error a method of the OS-backed handle returns is the translated error of the inner *os.File call (a closed handle answers ErrClosed whatever the arguments). (R17.9) Close marks the handle only after testing its closed mark. (R17.10) no handle method returns with a mutex held; (R17.11) File helpers hand their file's error on. (R17.12) methods of the os-backed handle return the error of their *os.File call. (R17.13) Close of the os-backed handle closes the *os.File on every path. NOT claimed: independence of offsets between handles over histories (the offset is a per-handle struct field, inventoried only), equality of the error with os.File's for each call.")
 	c.Assume("A6: partial correctness", "closers are not invoked from within other methods of the same handle (checked: no static call to a closer from a sibling method)")
 	c.RuleDoc("R17.1", "nullable pointer field: every dereference guarded by a dominating non-nil test")
 	c.RuleDoc("R17.5", "every success return of a handle method lies on a path that consulted the closed mark or delegated")
